@@ -22,7 +22,13 @@ R15.2  the polling loop has no infinite path once every awaited entity is
        locals of the wait function and `self`), lambdas and if-return chains
        are read as the boolean expression they return (all rules).
 R15.3  every `return` of the four functions returns a state read that is not
-       older than the polling loop.
+       older than the polling loop.  The list wait_tasks / wait_pilots return
+       is index-aligned with the awaited uids: the per-uid state reads walk
+       the `uids` (all of them, in the caller's order: not `sorted(uids)`,
+       `uids[1:]`, a filtered walk or the check list), one state per round,
+       and nothing changes the list in place (sort / reverse / pop / insert /
+       append / element store, also through an alias) between the reads and
+       the return.
 R15.4  the keep-waiting condition, evaluated over the folded state tables for
        every request, lets go of an entity that is in a requested state or
        final and keeps waiting for one that is before every requested state:
@@ -31,7 +37,9 @@ R15.4  the keep-waiting condition, evaluated over the folded state tables for
        entity state (a round trip head -> head must exist / must not exist).
        A threshold folded over the requested states before the loop
        (`v = min(v, value[s])`) is run for every concrete request, so `max`
-       for `min` is decided, not guessed.
+       for `min` is decided, not guessed - and so is the DOMAIN of the fold
+       (`for s in states[1:]`, `range(1, len(states))`: slices, copies,
+       range / enumerate are evaluated on the concrete request).
 R15.5  wait_tasks / wait_pilots: monotone shrink.  On every path through one
        round of the polling loop the check list at the end of the round holds
        only members it held at the start (abstract interpretation: subset-of-
@@ -4249,7 +4257,10 @@ def run(prog, rep, tier):
         'requested) nor once a given timeout has expired (abstract '
         'interpretation with list emptiness, k=1 inner loops); every return '
         'returns a state read that is not older than the loop.  For '
-        'wait_tasks / wait_pilots: the keep-waiting condition is right for '
+        'wait_tasks / wait_pilots: the returned list holds one state per '
+        'awaited uid in the order of the uids (walk over all uids, nothing '
+        're-orders or resizes the list in place before the return); '
+        'the keep-waiting condition is right for '
         'every request and state (state tables), and the check list only '
         'shrinks from round to round unless leaving it is permanent; the same '
         'table for the loop tests of Task.wait / Pilot.wait; for all four the '
@@ -4273,7 +4284,11 @@ def run(prog, rep, tier):
         'the awaited entity is whatever `<expr>.state` the loop tests; a '
         'comparison with a collection that folds to a superset of rps.FINAL '
         'is a final-state test',
-        'the parameters are named `state` and `timeout` (public API)',
+        'the parameters are named `state`, `timeout` and `uids` (public API)',
+        'the returned list is changed in place only by its own list methods, '
+        'element stores / del, `+=`, or shuffle / heap functions, on its name '
+        'or a plain alias; a callee that is handed the list (a reporter, a '
+        'logger) does not change it',
         'a local list is empty after `= list()`/`[]`, after a comprehension '
         'whose filter requires a non-final state (under the all-final '
         'assumption) and on the false edge of a truth test; append/extend/+= '
